@@ -85,6 +85,11 @@ def enabled(cfg):
                 a['after'] == '' or s['eio'][a['after']] != 'none')
         if act in ('EioLost', 'RxFuzz'):
             return s['eio'][a['t']] == 'open'
+        if act == 'SessionBlockD':
+            t = s['rooms'].get(a['ns'], {}).get('None', {}).get(a['sid'])
+            return t is not None and s['eio'][t] == 'open' and \
+                t not in s['binbuf'] and s['nextSid'] <= max_sid and \
+                a['newsid'] == 's%d' % s['nextSid']
         if act == 'RxConnect':
             return s['eio'][a['t']] == 'open' and s['nextSid'] <= max_sid \
                 and a['t'] not in s['binbuf']
@@ -269,6 +274,16 @@ def sessions(cfg):
             A.append(mk('SessionNested', sid=s, ns=ns,
                         val=w + cfg.get('block_suffix', 'b')))
             A.append(mk('GetSession', sid=s, ns=ns))
+            # a block that stays open while its client leaves, comes back
+            # as the next session id and has a session saved
+            for k in range(2, cfg['max_sid'] + 1):
+                n = sid(k)
+                a = mk('SessionBlockD', sid=s, ns=ns, live=True,
+                       val=w + cfg.get('block_suffix', 'b'), newsid=n,
+                       val2='w_%s_%s' % (n, 'root' if ns == '/'
+                                         else ns.strip('/')))
+                a['need'] = need_of([s])    # (newsid is allocated BY it)
+                A.append(a)
     return A
 
 
